@@ -31,9 +31,11 @@ type verifC09Grammar struct {
 	name      string
 	hasSyntax bool
 	src       string
+	ill       bool
 }
 
 var verifGenCalls int
+var verifC09Ill bool
 
 func verifGenLexerRec(pkg, outDir string, header string, itemsets *lexItems.ItemSets, tokMap *outToken.TokenMap, cfg config.Config) {
 	verifGenCalls |= 1
@@ -67,6 +69,7 @@ func VerifC09Main() {
 	}
 	verifAssume(!(verifFlags.noLexer && verifFlags.debugLexer)) // refused by the flag parser
 	verifGenCalls = 0
+	verifC09Ill = gr.ill
 	got := 0
 	if verifSymbolic() {
 		os.WriteFile("g.bnf", []byte(gr.src), 0o644)
